@@ -154,6 +154,25 @@ def body_cli(case, rec):
     want = fmt(conv.mk_assembly("x", norm(case["scaffolds"], with_tags=False), header=case["header"]), "agp")
     if back != want:
         raise Violation(f"AGP -> TPF -> AGP changed more than the tags: {first_diff(want, back)}")
+    # several input files in one invocation: the output is the concatenation of the single-file outputs
+    sc = case["scaffolds"]
+    if len(sc) >= 2:
+        d = remap.scratch_dir("vf-c05-")
+        try:
+            k = max(1, len(sc) // 2)
+            parts = [sc[:k], sc[k:]]
+            singles = []
+            for i, part in enumerate(parts):
+                (d / f"in_{i}.agp").write_text(fmt(conv.mk_assembly("x", part, header=case["header"] if i == 0 else []), "agp"))
+                singles.append(fmt(conv.mk_assembly("x", norm(part, with_tags=False), header=case["header"] if i == 0 else []), "tpf"))
+            r = remap.run_cli_inprocess([d / "in_0.agp", d / "in_1.agp", "-o", d / "both.tpf"], script="asm_format")
+            if r.exit_code != 0:
+                raise Violation(f"asm-format with two input files failed: {r.exception!r}")
+            got = (d / "both.tpf").read_text()
+        finally:
+            remap.rmtree(d)
+        if got != "".join(singles):
+            raise Violation(f"asm-format in_0.agp in_1.agp -o both.tpf: output is not the concatenation of the two conversions: {first_diff(''.join(singles), got)}")
 
 
 def diff(want, got):
